@@ -1,5 +1,6 @@
 """C08 - a fixed-weight backtest reproduces the documented trading rules exactly."""
 import datetime as D
+import random
 
 from hypothesis import strategies as st
 
@@ -18,7 +19,8 @@ RULE = ('Generated full sessions on dense synthetic markets (1-5 symbols, every 
         'quantity exact; price and commission 1e-9), final cash, final holdings (exact), daily equity (dates exact, '
         'values 1e-9), recorded target weights. Cases where a sizing quotient lies within 1e-9 of a rounding '
         'boundary are excluded and counted. Non-trivial = >= 2 rebalances, >= 1 sell fill and (fee > 0 or a negative '
-        'weight or a held asset that lost its weight... here: an asset with zero/absent weight in the union).')
+        'weight or a held asset that lost its weight... here: an asset with zero/absent weight in the union).'
+        " Round-5 reach: a third of the markets have bars (never a symbol's first) with an empty Open cell - that open trades at the previous close in the reference - and half the files are written newest-first or shuffled.")
 ASSUMPTIONS = [
     'dense markets only (gaps and late listings are C06/C07\'s subject)',
     'weight sums are 0 or >= 0.05 (the unscaled near-zero branch is covered by C10/C11)',
@@ -31,7 +33,24 @@ def run_case(case):
     clear_caches()
     cfg = case['cfg']
     mk = case['market']
-    with market.csv_dir(mk) as path:
+    if case.get('gaps'):
+        # some bars (never a symbol's first) have an empty Open cell: that open trades at the previous close
+        mk = {s: [list(r) for r in rows] for s, rows in mk.items()}
+        for s, idxs in case['gaps'].items():
+            for k in idxs:
+                if 0 < k < len(mk[s]):
+                    mk[s][k][3] = None
+    files = mk
+    if case.get('file_order', 'sorted') != 'sorted':
+        files = {}
+        for i, (s, rows) in enumerate(mk.items()):
+            rr = list(rows)
+            if case['file_order'] == 'reversed':
+                rr.reverse()
+            else:
+                random.Random(811 * i + len(rr)).shuffle(rr)
+            files[s] = rr
+    with market.csv_dir(files) as path:
         r = session.run_session(cfg, path, list(mk))
     if r.error:
         raise Violation('session failed with %s: %s at broker time %s' % r.error)
@@ -74,6 +93,10 @@ def run_case(case):
     if ga != ref['allocations']:
         raise Violation('recorded target weights %s differ from %s' % (ga[:2], ref['allocations'][:2]))
     cls = [cfg['rebalance'], 'long_only' if cfg['long_only'] else 'long_short', 'assets_%d' % len(mk)]
+    if any(case.get('gaps', {}).values()):
+        cls.append('bars_with_empty_open')
+    if case.get('file_order', 'sorted') != 'sorted':
+        cls.append('files_' + case['file_order'])
     nreb = len(ref['allocations'])
     sells = sum(1 for f in exp if f[2] < 0)
     w = cfg['alpha']['weights']
@@ -127,7 +150,12 @@ def cases(draw):
         cfg['alpha']['weights'] = {a: float('%.6f' % (1.0 / n_ - draw(st.sampled_from([1e-6, 2e-6])))) for a in assets}
         cfg['cash'] = 5e7
         cfg['universe']['assets'] = list(assets)
-    return {'cfg': cfg, 'market': mk}
+    gaps = {}
+    if draw(st.sampled_from([False, False, True])):
+        for s in names:
+            gaps[s] = draw(st.lists(st.integers(1, max(1, len(mk[s]) - 1)), max_size=4, unique=True))
+    return {'cfg': cfg, 'market': mk, 'gaps': gaps,
+            'file_order': draw(st.sampled_from(['sorted', 'sorted', 'reversed', 'shuffled']))}
 
 
 def sizing_():
